@@ -139,8 +139,9 @@ pub fn generate_c16(run_seed: u64, thorough: bool) -> ListDesc {
     let nlists = 1 + g.r.weighted(&[50, 35, 15]);
     let mut init = Vec::new();
     for _ in 0..nlists {
-        // growth boundaries: capacity is 4/8/16 (8/16 for 1-byte elements)
-        let len = *g.r.pick(&[0usize, 1, 3, 4, 4, 4, 7, 8, 8, 2]);
+        // growth boundaries: capacity is 4/8/16/32 (8/16/32 for 1-byte elements); one list in
+        // seven is long, so that anything done in chunks or batches has more than one chunk
+        let len = if g.r.chance(1, 7) { *g.r.pick(&[15usize, 16, 17, 24, 31, 32, 33, 40]) } else { *g.r.pick(&[0usize, 1, 3, 4, 4, 4, 7, 8, 8, 2]) };
         let v: Vec<MVal> = (0..len).map(|_| g.fresh()).collect();
         init.push(v);
     }
@@ -182,9 +183,19 @@ pub fn generate_c16(run_seed: u64, thorough: bool) -> ListDesc {
                     Op::Push { h, v: g.fresh() }
                 }
                 2 => Op::Len { h },
-                3 => Op::Swap { h, i: idx(&mut g), j: idx(&mut g) },
-                4 => Op::Contains { h, v: g.known() },
-                5 => Op::Index { h, v: g.known() },
+                3 => {
+                    if len > 12 && g.r.chance(1, 2) {
+                        // far apart: one index in the first half, one in the second
+                        Op::Swap { h, i: g.r.below(len / 2), j: len / 2 + g.r.below(len - len / 2) }
+                    } else {
+                        Op::Swap { h, i: idx(&mut g), j: idx(&mut g) }
+                    }
+                }
+                4 | 5 => {
+                    // mostly look for something that is in this very list (initial element), else anything
+                    let v = if !init[lid].is_empty() && g.r.chance(2, 3) { g.r.pick(&init[lid]).clone() } else { g.known() };
+                    if kind == 4 { Op::Contains { h, v } } else { Op::Index { h, v } }
+                }
                 6 => {
                     let b = *g.r.pick(&live);
                     Op::Concat { a: h, b, dst: None, plus: origin == Origin::Script && g.r.chance(1, 2) }
